@@ -316,4 +316,93 @@ theorem startCore_deps {s₁ s₂ : Ctx} (h : AgreeOn A8 s₁ s₂) :
   · simp only [maxVoc, h6, hv, hc]
   · funext i; simp only [muteOf, h4, h8]
 
+theorem pre_persistent (s : Ctx) (f : Field) (hf : Persistent f = true) : pre s f = s f := by
+  unfold pre; split
+  · exact release_persistent s f hf
+  · rfl
+
+theorem live_of_dead (s : Ctx) (f : Field) (i : Nat) (h : Dead f = true) : Live s f i = false := by
+  cases f <;> first | rfl | exact absurd h (by decide)
+
+theorem startOrd_mixerOn (X : Ext) (r fm : Int) (L : Ctx) : startOrd (mixerOn X r fm L) = startOrd L := rfl
+
+attribute [local irreducible] startOrd startLen virtChannels maxVoc muteOf
+
+theorem start_agree (X : Ext) (r fm : Int) {L₁ L₂ : Ctx} (h7 : AgreeOn A7 L₁ L₂) (hp : PartialAgree L₁ L₂)
+    (hs₁ : L₁ .state 0 = K.XMP_STATE_LOADED) (hs₂ : L₂ .state 0 = K.XMP_STATE_LOADED)
+    (hlive : L₁ .m_xxo_info_time (startOrd L₁) ≠ -1) (hspeed : L₁ .m_xxo_info_speed (startOrd L₁) ≠ 0) :
+    ∀ f i, Live (startPlayer X r fm L₁) f i = true → startPlayer X r fm L₁ f i = startPlayer X r fm L₂ f i := by
+  rw [startPlayer_loaded X r fm L₁ hs₁, startPlayer_loaded X r fm L₂ hs₂]
+  have h8 := mixerOn_agree X r fm h7
+  obtain ⟨hl, ho, hc, hm, hmu⟩ := startCore_deps h8
+  have hr := restrict_congr h8 startReads_sub_A8
+  have ho₁ := startOrd_mixerOn X r fm L₁
+  have hlv : ∀ f, PartialField f = true → (match f with
+      | .m_xxo_info_speed | .m_xxo_info_bpm | .m_xxo_info_gvl | .m_xxo_info_st26_speed => true | _ => false) = true →
+      L₁ f (startOrd L₁) = L₂ f (startOrd L₁) := by
+    intro f hf hx
+    apply hp f _ hf
+    cases f <;> first | exact absurd hx (by decide) | (simp only [Live]; simpa using hlive)
+  have hbpm : mixerOn X r fm L₁ .m_xxo_info_bpm (startOrd (mixerOn X r fm L₂)) = mixerOn X r fm L₂ .m_xxo_info_bpm (startOrd (mixerOn X r fm L₂)) := by
+    rw [← ho, ho₁]; exact hlv _ rfl rfl
+  have hgvl : mixerOn X r fm L₁ .m_xxo_info_gvl (startOrd (mixerOn X r fm L₂)) = mixerOn X r fm L₂ .m_xxo_info_gvl (startOrd (mixerOn X r fm L₂)) := by
+    rw [← ho, ho₁]; exact hlv _ rfl rfl
+  have hst : mixerOn X r fm L₁ .m_xxo_info_st26_speed (startOrd (mixerOn X r fm L₂)) = mixerOn X r fm L₂ .m_xxo_info_st26_speed (startOrd (mixerOn X r fm L₂)) := by
+    rw [← ho, ho₁]; exact hlv _ rfl rfl
+  have hspd : mixerOn X r fm L₁ .m_xxo_info_speed (startOrd (mixerOn X r fm L₂)) = mixerOn X r fm L₂ .m_xxo_info_speed (startOrd (mixerOn X r fm L₂)) := by
+    rw [← ho, ho₁]; exact hlv _ rfl rfl
+  have htime : mixerOn X r fm L₁ .m_xxo_info_time = mixerOn X r fm L₂ .m_xxo_info_time := h8 _ (by decide)
+  have htf : mixerOn X r fm L₁ .m_time_factor = mixerOn X r fm L₂ .m_time_factor := h8 _ (by decide)
+  have hrr : mixerOn X r fm L₁ .m_rrate = mixerOn X r fm L₂ .m_rrate := h8 _ (by decide)
+  have hchn : mixerOn X r fm L₁ .m_mod_chn = mixerOn X r fm L₂ .m_mod_chn := h8 _ (by decide)
+  have hsx : mixerOn X r fm L₁ .smix_chn = mixerOn X r fm L₂ .smix_chn := h8 _ (by decide)
+  have hscan : mixerOn X r fm L₁ .p_scan = mixerOn X r fm L₂ .p_scan := h8 _ (by decide)
+  have hne₂ : mixerOn X r fm L₂ .m_xxo_info_speed (startOrd (mixerOn X r fm L₂)) ≠ 0 := by
+    rw [← hspd, ← ho, ho₁]; exact hspeed
+  have hin : startIn X (mixerOn X r fm L₁) = startIn X (mixerOn X r fm L₂) := by
+    simp only [startIn, hl, ho, hc, hm, hmu, hr, hbpm, hgvl, hst, hspd, htime, htf, hrr, hchn, hsx, hscan, if_pos hne₂]
+  intro f i hlf
+  unfold startCore at hlf ⊢
+  rw [hin] at hlf ⊢
+  have hA : A8 f = true → mixerOn X r fm L₁ f i = mixerOn X r fm L₂ f i := fun h => congrFun (h8 f h) i
+  have hP : PartialField f = true → Live L₁ f i = true → L₁ f i = L₂ f i := hp f i
+  have hD : Dead f = true → False := fun hd => by
+    rw [live_of_dead _ _ _ hd] at hlf; exact Bool.false_ne_true hlf
+  revert hA hP hD hlf
+  cases f <;> intro hlf hA hP hD <;> first
+    | rfl
+    | exact hA rfl
+    | exact (hD rfl).elim
+    | exact hP rfl hlf
+
+theorem live_startPlayer (X : Ext) (r fm : Int) (L : Ctx) (hs : L .state 0 = K.XMP_STATE_LOADED) (f : Field) (i : Nat) :
+    Live (startPlayer X r fm L) f i = Live L f i := by
+  rw [startPlayer_loaded X r fm L hs]
+  cases f <;> rfl
+
+theorem live_congr {L₁ L₂ : Ctx} (ht : L₁ .m_xxo_info_time = L₂ .m_xxo_info_time)
+    (hn : L₁ .m_num_sequences = L₂ .m_num_sequences) (f : Field) (i : Nat) : Live L₁ f i = Live L₂ f i := by
+  cases f <;> first
+    | rfl
+    | (simp only [Live]; rw [ht])
+    | (simp only [Live]; rw [hn])
+
+/-- equal player views after `xmp_start_player` on two loaded states that agree on `A7` -/
+theorem view_agree (X : Ext) (r fm : Int) {L₁ L₂ : Ctx} (h7 : AgreeOn A7 L₁ L₂) (hp : PartialAgree L₁ L₂)
+    (hs₁ : L₁ .state 0 = K.XMP_STATE_LOADED) (hs₂ : L₂ .state 0 = K.XMP_STATE_LOADED)
+    (hlive : L₁ .m_xxo_info_time (startOrd L₁) ≠ -1) (hspeed : L₁ .m_xxo_info_speed (startOrd L₁) ≠ 0) :
+    playerView (startPlayer X r fm L₁) = playerView (startPlayer X r fm L₂) := by
+  have hag := start_agree X r fm h7 hp hs₁ hs₂ hlive hspeed
+  have ht : L₁ .m_xxo_info_time = L₂ .m_xxo_info_time := h7 _ (by decide)
+  have hn : L₁ .m_num_sequences = L₂ .m_num_sequences := h7 _ (by decide)
+  funext f i
+  unfold playerView
+  have hlv : Live (startPlayer X r fm L₁) f i = Live (startPlayer X r fm L₂) f i := by
+    rw [live_startPlayer X r fm L₁ hs₁, live_startPlayer X r fm L₂ hs₂]
+    exact live_congr ht hn f i
+  rw [← hlv]
+  by_cases hl : Live (startPlayer X r fm L₁) f i = true
+  · rw [if_pos hl, if_pos hl]; exact hag f i hl
+  · rw [if_neg hl, if_neg hl]
+
 end Xmp.Reset
